@@ -30,4 +30,14 @@ CHECKS["C11"] = {
     "note": "Trusted: unique error identities created by the driver; errors the library creates itself are compared as the token LIB. Order is demanded only within one source, as the statement says.",
     "technique": MBT,
 }
+CHECKS["C12"] = {
+    "text": "Properties are modelled as one key-to-value map per owner (table, columns incl. column 0, rows, cells, header cells, by-value cell copies, column handles that denote their column for ever); TLC explores all interleavings of set / set-nil / copy / take-handle / grow-past-capacity over type-distinct keys within the bounds and checks owner independence as an action property; every transition and seeded random longer histories run on the real library, where after each step GetProperty of every live owner x every key of the universe (11 keys: equal values of distinct types, struct types, pointers, the library's own keys) is compared with the model as a set, and the printed chain length of every cell is bounded by its number of keys.",
+    "note": "Trusted: the driver's key/value universe and owner enumeration; chain length parsed from %#v. Histories beyond the bounds are sampled.",
+    "technique": MBT,
+}
+CHECKS["C13"] = {
+    "text": "The dispatch templates (which registration lists run on which object, in which slot, for Row.Add, AddRow, AddHeaders and a render pass) are TLA+ operators; the C13 relation (required events exactly once, optional ones at most once, nothing unexpected, documented slot order, registration refused exactly for unsupported owner/target pairs) is checked by TLC on the implementation-shaped dispatch for every single registration (pairs where affordable) at every point of every small shape's build script and over two passes; every transition and random registration mixes are executed on the real library with recording callbacks; TLC validates each call's event log by that relation and the marks the callbacks set (visible through the table) by the props facet.",
+    "note": "Trusted: pointer-identity identification of callback targets by the driver. Events the statement is silent on are optional (DESIGN 6 C13). Pairs of registrations are exhaustive only on the smallest shapes in the quick tier.",
+    "technique": MBT,
+}
 NOT_APPLICABLE = {}
